@@ -33,6 +33,9 @@ def countsToJson (c : Counts) : Json :=
 def kvToJson (key : List Nat → Json) (d : List (List Nat × Cyc8)) : Json :=
   .arr (d.map (fun p => Json.arr #[key p.1, cycToJson p.2])).toArray
 
+def mdistToJson (d : List (List Nat × Rat)) : Json :=
+  .arr (d.map (fun p => Json.arr #[tupleToJson p.1, ratToJson p.2])).toArray
+
 /-- everything the property observes, from an amplitude vector -/
 def viewsOfAmps (amps : List Cyc8) (j : Json) : Except String (List (String × Json)) := do
   let k := OQ.Scal.cyc8
@@ -40,21 +43,22 @@ def viewsOfAmps (amps : List Cyc8) (j : Json) : Except String (List (String × J
   let draws ← listOfJson natOfJson (← field j "draws")
   let op ← listOfJson termOfJson (← field j "operator")
   let samples := runAndMeasure k amps nSamples draws
-  let (samplesJ, countsJ, measuredJ) :=
+  let (samplesJ, countsJ, measuredJ, mdistJ) :=
     match samples with
-    | .error e => (errJson e, errJson e, errJson e)
+    | .error e => (errJson e, errJson e, errJson e, errJson e)
     | .ok shots =>
       (Json.arr (shots.map tupleToJson).toArray, countsToJson (getCounts shots),
-        match measuredExpectationValues Cyc8.ofRat op shots with
+        (match measuredExpectationValues Cyc8.ofRat op shots with
         | .error e => errJson e
-        | .ok vs => Json.arr (vs.map cycToJson).toArray)
+        | .ok vs => Json.arr (vs.map cycToJson).toArray),
+        mdistToJson (getDistribution shots))
   let exactJ := match getExpectationValue k op amps with
     | .error e => errJson e
     | .ok v => cycToJson v
   pure [("wf", Json.arr (amps.map cycToJson).toArray),
         ("outcome_probs", kvToJson (fun s => Json.str (digitsToString s)) (getOutcomeProbs k amps)),
         ("dist", kvToJson tupleToJson (exactDistribution k amps)),
-        ("samples", samplesJ), ("counts", countsJ), ("measured", measuredJ), ("exact", exactJ)]
+        ("samples", samplesJ), ("counts", countsJ), ("measured", measuredJ), ("mdist", mdistJ), ("exact", exactJ)]
 
 def handle (op : String) (j : Json) : Except String Json := do
   match op with
@@ -75,6 +79,15 @@ def handle (op : String) (j : Json) : Except String Json := do
     match amps with
     | .error e => pure (Json.mkObj [("wf", errJson e)])
     | .ok a => pure (Json.mkObj (← viewsOfAmps a j))
+  | "meas" =>
+    -- the views of ONE Measurements object holding `shots` (whatever history produced them)
+    let shots ← listOfJson (listOfJson natOfJson) (← field j "shots")
+    let op ← listOfJson termOfJson (← field j "operator")
+    let measuredJ := match measuredExpectationValues Cyc8.ofRat op shots with
+      | .error e => errJson e
+      | .ok vs => Json.arr (vs.map cycToJson).toArray
+    pure (Json.mkObj [("counts", countsToJson (getCounts shots)), ("mdist", mdistToJson (getDistribution shots)),
+                      ("measured", measuredJ)])
   | "freq" =>
     let marked ← listOfJson natOfJson (← field j "marked")
     let freqs ← listOfJson (fun p => do
